@@ -12,7 +12,7 @@ from ..harness import Part, HarnessError
 
 PROPERTY_ID = "C15"
 RULE = ("recorded: Hypothesis build programs (<= 7 items per circuit, nesting <= 2, 4 qubits) over all 26 operation kinds "
-        "(13 exported, 13 not), repetition counts 1..3 on sub-circuits, waits with integer durations, sibling sub-circuits "
+        "(13 exported, 13 not), repetition counts 1..3 on sub-circuits, waits with integer durations, built and exported under a generated global duration setting (a third of the cases; values from {.25,.5,1,1.5,2,3,7}, so also below one time unit), sibling sub-circuits "
         "with identical content (same derived names); in about half of the cases the unfinished circuit is also exported once before a generated top-level item is added (that export = translated listing of the prefix). to_openql runs against a recording platform (test double for "
         "PlatformManager.construct_program / construct_kernel that logs gate / cz / barrier / wait / add_kernel / "
         "add_program / add_for and, like OpenQL, rejects a duplicate kernel name inside one program); the executed "
@@ -177,7 +177,7 @@ def integer_waits(program):
 def cfg():
     kinds = list(P.ALL_KINDS) + ["Wait", "CPhase", "Rx180", "Barrier", "DispersiveMeasure"]
     return P.GenCfg(kinds=kinds, nq=4, max_items=7, max_depth=2, p_sub=30, p_rel=25, max_reps=3, top_reps=False,
-                    globals_=False, max_total_leaves=40, empty_barrier=True)
+                    globals_=True, global_zero=False, max_total_leaves=40, empty_barrier=True)
 
 
 def strat():
@@ -218,7 +218,7 @@ def classify(program):
     return between
 
 
-def body_recorded(case, ctx):
+def _body_recorded(case, ctx):
     from qce_circuit.addon_openql.factory_manager import to_openql
     program = case
     st = P.stats(program)
@@ -299,7 +299,7 @@ def parse_cqasm(text):
     return stack[0]
 
 
-def body_compiled(case, ctx):
+def _body_compiled(case, ctx):
     import openql as ql
     from qce_circuit.addon_openql.factory_manager import to_openql
     import qce_circuit.addon_openql.platform_manager as pm
@@ -337,6 +337,17 @@ def body_compiled(case, ctx):
             ctx.fail("openql-compiled-order", f"compiled cQASM differs from the translated listing: {first_diff(want, got)}", facts)
     finally:
         shutil.rmtree(out_dir, ignore_errors=True)
+
+
+def body_recorded(case, ctx):
+    # built and exported under the program's global duration setting (None = defaults): what is exported must not depend on it
+    with P.global_override(case.get("g")):
+        _body_recorded(case, ctx)
+
+
+def body_compiled(case, ctx):
+    with P.global_override(case.get("g")):
+        _body_compiled(case, ctx)
 
 
 def parts():
